@@ -17,7 +17,7 @@ RULE = (
     "by (sampler descriptor, space descriptor, history hash)."
 )
 ASSUMPTIONS = [
-    "an exception or a >20 s stall inside a third-party estimator/optimizer on a generated history is 'no batch' (counted rejected), not a violation",
+    "an exception or a >90 s stall inside a third-party estimator/optimizer on a generated history is 'no batch' (counted rejected), not a violation",
     "CORS is not given all-zero losses (its normalisation divides by max|loss|)",
 ]
 REQUIRED_COUNTERS = {f"batches_{k}": 20 for k in G.SAMPLER_KINDS}
@@ -62,7 +62,7 @@ def run_case(desc, ctx):
         done = 0
         for call in range(ncalls):
             try:
-                with quiet(), G.time_limit(20):
+                with quiet(), G.time_limit(90):
                     batch = sampler.sample(space, pts, losses)
             except G.Timeout:
                 c[f"rejected_timeout_{kind}"] = c.get(f"rejected_timeout_{kind}", 0) + 1
